@@ -262,7 +262,8 @@ def rnn_case():
       'B': st.integers(1, 3), 'reverse': st.booleans(),
       'keep_order': st.booleans(), 'time_major': st.booleans(),
       'use_lengths': st.booleans(), 'unroll': st.sampled_from([1, 2]),
-      'bidir': st.booleans(), 'seed': st.integers(0, 2**16)})
+      'bidir': st.booleans(), 'override': st.booleans(),
+      'seed': st.integers(0, 2**16)})
 
 
 @clause('rnn_vs_loop', strategy=rnn_case, quick=80, thorough=6000,
@@ -286,22 +287,31 @@ def rnn_vs_loop(case, ctx):
       B, T)
   cell = make_cell(cellname, hid, dt)
 
+  # flags either as constructor attributes or as call-time overrides of a
+  # default-constructed RNN (documented keyword arguments of __call__)
+  call_kw = dict(time_major=case['time_major'], return_carry=True,
+                 reverse=case['reverse'], keep_order=case['keep_order']) \
+      if case['override'] else {}
+
   def run(rnn, xx, variables):
     xin = jnp.asarray(np.swapaxes(xx, 0, 1) if case['time_major'] else xx)
     out = rnn.apply(variables, xin, seq_lengths=jnp.asarray(lens) if
-                    case['use_lengths'] else None)
+                    case['use_lengths'] else None, **call_kw)
     carry, ys = out
     ys = np.asarray(ys)
     if case['time_major']:
       ys = np.swapaxes(ys, 0, 1)
     return carry, ys
 
-  rnn = nn.RNN(cell, time_major=case['time_major'], return_carry=True,
-               reverse=case['reverse'], keep_order=case['keep_order'],
-               unroll=case['unroll'])
+  if case['override']:
+    rnn = nn.RNN(cell, unroll=case['unroll'])
+  else:
+    rnn = nn.RNN(cell, time_major=case['time_major'], return_carry=True,
+                 reverse=case['reverse'], keep_order=case['keep_order'],
+                 unroll=case['unroll'])
   with sut('RNN init'):
     xin0 = jnp.asarray(np.swapaxes(x, 0, 1) if case['time_major'] else x)
-    v = unfreeze(rnn.init(KEY(0), xin0))
+    v = unfreeze(rnn.init(KEY(0), xin0, **call_kw))
     v = {'params': randomize(v['params'], rng)}
     carry, ys = run(rnn, x, v)
   # reference: python loop per batch element
@@ -347,8 +357,11 @@ def rnn_vs_loop(case, ctx):
                 for a, b in zip(l1, l2)),
             'inputs at padded steps influence the returned final carry')
   if case['bidir'] and not conv:
-    fwd = nn.RNN(make_cell(cellname, hid, dt), time_major=case['time_major'])
-    bwd = nn.RNN(make_cell(cellname, hid, dt), time_major=case['time_major'])
+    # the inner RNNs either carry time_major themselves or receive it from
+    # Bidirectional at call time
+    inner_tm = {} if case['override'] else {'time_major': case['time_major']}
+    fwd = nn.RNN(make_cell(cellname, hid, dt), **inner_tm)
+    bwd = nn.RNN(make_cell(cellname, hid, dt), **inner_tm)
     bi = nn.Bidirectional(fwd, bwd, time_major=case['time_major'])
     with sut('Bidirectional'):
       vb = unfreeze(bi.init(KEY(0), xin0))
@@ -372,7 +385,8 @@ def rnn_vs_loop(case, ctx):
     require(close(yb[valid], cat[valid]), 'Bidirectional != concat(forward, '
             'length-aware reversed backward)')
   ctx.note(labels=[cellname, 'rev' if case['reverse'] else 'fwd',
-                   'lens' if case['use_lengths'] else 'full'],
+                   'lens' if case['use_lengths'] else 'full',
+                   'call-override' if case['override'] else 'attributes'],
            nontrivial=bool((~valid).any()) or case['reverse'])
 
 
